@@ -10,105 +10,105 @@ for l in open(os.path.join(HERE, "properties.jsonl")):
 # id -> (level text, level note, technique, design_ref)
 TECH = 'Lean 4 proof about hand-written model + differential correspondence with the implementation'
 CLAIMS = {
-    'C07': (
-        'Lean 4 theorems: conforms_iff / conforms_iff_of_graph (for every well-formed architecture and every diagram whose components are existing, pairwise unrelated modules, the model of DiagramRule passes exactly when the imports conform to the diagram, in both modes; never_errs, fails_iff_not_conforms; each generated rule is a strict C01 rule: generated_rules_strict), aggregates_all / first_error_propagates (the failure aggregates the items of ALL failing generated rules in order; the first non-assertion error propagates), base_module / base_module_diagram / diagramAssert_base_iff (with_base_module(p) = writing every component as p.name), diagramAssert_iff (composition with the parser). Tie: real DiagramRule.assert_applies on generated diagrams x import graphs (both modes, both naming options) vs the model vs the conformance oracle; verdict and the set of message lines.',
-        "Domain: diagramDomain (components exist, pairwise unrelated, arrows between distinct components). Trusted: Lean kernel, harness/driver; the parser tie is C06's.",
-        TECH,
-        '6/C07',
-    ),
-    'C06': (
-        "Lean 4 round-trip theorem Pta.C06.roundtrip: for EVERY diagram of the documented subset (any interleaving of declaration lines in the 3 declaration forms with optional 'as alias' on the bracketed forms and arrow lines in all 6 arrow forms with bracketed / bare / alias references; names = identifiers or dotted names; arbitrary text before @startuml, text without @enduml after the end tag) the model of PumlParser.parse returns exactly the declared-or-referenced component names with aliases resolved and exactly the drawn dependor->dependee relation; order_irrelevant and presentation_irrelevant (line order / alias-vs-name spelling do not matter), no_tags (parsing error), plus the layer lemmas (decl_line_modules, arrow_line_dependency, body_of_text, aggregate_law for arbitrary per-line results). Tie: diagrams rendered from random component relations in every documented form, real PumlParser().parse vs the model vs the generating relation.",
-        "The regex engine is not modelled: the line recognisers were written after the two regular expressions and their agreement with Python's re on documented lines rests on the correspondence run. Outside the subset (bracketed alias, second @enduml in trailing text) two boundary theorems state what the model does; the real code agrees. Trusted: Lean kernel, harness/driver.",
-        TECH,
-        '6/C06',
-    ),
-    'C04': (
-        'Lean 4 theorems about the scan model for every directory listing of tree shape (paths duplicate-free, parents listed), every module_path, every exclusion predicate: walk_modules_exact / walk_files_exact (the walk finds exactly one module per non-excluded directory / .py file at or below module_path with no excluded directory in between; fuel sufficiency proved), moduleName_entryName, graph_modules_exact / graph_modules_explicit (graph nodes = those modules plus every ancestor package up to the root), hierarchy_exact, submodules_exact (sub modules = nodes whose dotted name extends the module), scan_wf (the scanned graph is the graph of a well-formed architecture - this discharges the standing hypotheses of C01/C03 for scanned architectures), subscan_modules (scanning a sub directory = scanning the root restricted to it), parent_relative_resolves. Tie: real scans of generated trees (every directory as module_path, both entry points) vs the model vs the specification.',
-        'Partial: sub-scan IMPORT equality and the module-object entry point (dirname(__file__) delegation) are checked by correspondence only, not stated as theorems; pathlib / import-system behaviour is exercised, not modelled. Name conditions (dot-free directory names and .py stems, no x.py next to x/) are hypotheses on the entries the scan can see. Trusted: Lean kernel, harness/driver.',
-        TECH,
-        '6/C04',
-    ),
-    'C10': (
-        'Lean 4 theorems about the scan model for every tree, every option record and ANY level limit: internal_invariant / internal_invariant_perm / internal_invariant_errors (two runs that differ only in exclude_external_libraries and external exclusion patterns have the same internal modules, internal imports and internal hierarchy edges, and fail on the same inputs), externals_excluded (default: every node is a parsed module or one of its ancestors, every import ends in an internal module), externals_included / externals_included_limit (a retained external importee and all its ancestors are nodes with the import edge; an external matching a pattern, or with a matching ancestor, is neither node nor edge end). Tie: real scans under all option sets vs the model; internal sub-architecture compared across option sets on the implementation.',
-        'Trusted: Lean kernel, harness/driver; user regexes uninterpreted; the directory walk and the AST are parameters of the model.',
-        TECH,
-        '6/C10',
-    ),
-    'C05': (
-        "Lean 4 theorem Pta.C05.layer_verdict: for every well-formed architecture, every layered architecture whose layers list pairwise unrelated existing modules (by name list or by regex, mixed), every LayerRule (12 shapes + 2 'any layer' aliases, any number of object layers, any number of unmentioned layers of either kind), the model of LayerRule.assert_applies passes exactly when the documented layer semantics hold; layer_verdict_chain ties it to the fluent call chain, unmentioned_layers_irrelevant, layerOf_correct (never LayerMismatch on the domain), layer_report_sound (every reported import is an import edge between different layers). Tie: real LayerRule.assert_applies vs model vs specification on generated graphs x layer partitions x rules.",
-        "Domain: layerDomain (layers non-empty, listed modules exist and are pairwise unrelated, subject and object layers distinct and defined); 'anything' only with should_not (otherwise a configuration error, proved). Regex engine uninterpreted (mt). Trusted: Lean kernel, harness/driver.",
-        TECH,
-        '6/C05',
-    ),
-    'C02': (
-        "Lean 4 theorems: statement level, for every well-formed importer, module set and statement (absolute, from, relative forms): ImportConverter._convert names exactly the modules the specification names and raises exactly when a relative import reaches above the root (Pta.C02.convertStmt_spec, convertStmt_error_iff, relativeImportee_spec); graph level, default options, any exclusions, for every directory tree that is well-formed where the scan looks (treeWFFor): the import edges of the scan graph are exactly the specification's edges (scan_imports_exact_tree, scan_error_iff_tree; composed with the C04 walk theorems, no walk hypothesis left). Tie: real files written to a tmpfs and scanned with get_evaluable_architecture vs the model (fed each file's Import/ImportFrom nodes as enumerated by ast.walk) vs the specification, over every statement-list position of the running interpreter's grammar x every import form (incl. names that are not modules), random trees, and non-default option sets.",
-        "Partial: 'nested at any depth' is outside the model (the AST walk is a parameter; the harness enumerates positions from the running interpreter's ast and prints coverage gaps). A file x.py next to a package directory x/ is outside the domain (hierarchy edge and import edge collide in the backend; collision_counterexample). Trusted: Lean kernel, harness/driver, CPython ast.",
-        TECH,
-        '6/C02',
-    ),
     'C01': (
-        "Lean 4 theorems about an executable model of the rule pipeline (graph construction, the three graph searches, flag tables, eight violation buckets) and an independent declarative specification of the documented semantics: for every well-formed architecture the model verdict equals the specification for every STRICT rule (Pta.C01.verdict_spec, verdict_spec_of_graph; all 12 shapes, both filter kinds, batches of any size, the 'anything' aliases) and, related names allowed, for every plain should / should_not rule with named subjects and objects (verdict_spec_plain_named); report_spec / report_spec_plain_named for the report; unknown_name_no_verdict. End to end: Pta.E2E.scan_rule_verdict - for every directory tree that is well-formed where the scan looks, the verdict of a strict rule on the scanned architecture equals the documented semantics on the modules of the tree and the imports its statements account for. Tie: correspondence run (real assert_applies vs model vs specification; exhaustive over all import relations on small trees, seeded random beyond; re-used rule objects; partial names).",
-        "Strict oracle only on pairwise unrelated subjects/objects (plus the plain named rules) and on architectures where no package imports its own descendant; for 'something else' questions with related identifiers the documentation is silent (plain_subOf_counterexample shows where model and a literal reading differ); there the implementation is compared with the model only. Trusted: Lean kernel; harness + driver; model-to-code agreement rests on the correspondence run.",
+        "Lean 4 theorems about an executable model of the rule pipeline (graph construction, the three graph searches, flag tables, eight violation buckets, alias conversion) and an independent declarative specification of the documented semantics. For every well-formed architecture and every rule in the oracle domain `parentFree` (all 12 shapes and the two 'anything' forms, named and 'sub modules of' filters, batches of any size, related names allowed; only the parent of a 'sub modules of' filter may not itself be a member of a filter of the rule) the model verdict equals the specification: Pta.C01.verdict_spec_parentFree (special cases verdict_spec, verdict_spec_named, verdict_spec_admissible); unknown_name_no_verdict; rule_chain_state (the fluent chain reaches the compiled rule); others_literal_agree / others_literal_counterexample (where the specification's reading of 'something else' and a literal reading differ). End to end from a directory tree: Pta.E2E.scan_rule_verdict_parentFree, scan_rule_total_parentFree. Tie to /repo on every run: correspondence run (real code vs compiled Lean model vs Lean specification on generated inputs, exhaustive where stated in the evidence); regenerated flag tables (Pta.C12.generated_flags_agree); interpreter-mode probe (normal vs python -O).",
+        "Outside parentFree (e.g. 'sub modules of p should not import p') the documentation is silent; there the implementation is compared with the model only (plain_subOf_counterexample, parentFree_needed_on_scan show model and specification differ). Architectures in which a package imports its own direct child are outside Arch.WF (backend edge collision). Trusted: Lean kernel; harness + driver; model-to-code agreement rests on the correspondence run.",
         TECH,
         '6/C01',
     ),
+    'C02': (
+        "Lean 4 theorems. Statement level: ImportConverter._convert names exactly the modules the specification names for every well-formed importer, module set and statement form, and raises exactly when a relative import reaches above the root (Pta.C02.convertStmt_spec, convertStmt_error_iff, relativeImportee_spec). AST level: the work-list walk of ImportConverter.convert collects exactly the import nodes of the whole tree, at every depth and in every field (collect_all_imports; walk_body_only_counterexample shows what a body-only walk loses). Graph level, default options, any exclusions, every directory tree that is well-formed where the scan looks: the import edges of the scan graph are exactly the specification's (scan_imports_exact_tree_ast, scan_imports_exact, scan_error_iff_tree; composed with the C04 walk theorems). Tie to /repo on every run: correspondence run (real code vs compiled Lean model vs Lean specification on generated inputs, exhaustive where stated in the evidence): real files on a tmpfs, every statement-list position of the running interpreter's grammar x every import form, the complete AST of every file sent to the model.",
+        "Source text -> AST (ast.parse) and the reduction of an Import/ImportFrom node to the model's statement record are outside the model (the AST is a parameter, enumerated from the running interpreter; coverage gaps are printed). A file x.py next to a package directory x/ is outside the domain (collision_counterexample). Non-default options: see C09, C10. Trusted: Lean kernel, harness/driver, CPython ast.",
+        TECH,
+        '6/C02',
+    ),
     'C03': (
-        "Same model and specification as C01. Proved for every graph and rule: each reported import is an import edge with an end in a subject's sub tree, each 'does not import' line names a subject and objects of the rule (Pta.C03.reported_imports_are_imports, reported_imports_touch_subject, missing_lines_name_subjects); on the oracle domain the reported atoms equal the specification's violating set (Pta.C01.report_spec, report_spec_plain_named). The message TEXT is modelled too (PtaModel/Message.lean, a transcription of message_generator.py): line_of_item (the lines are exactly the renderings of the report items, sorted and de-duplicated as the generator does), parse_render (the four line shapes parse back), text_lines_are_imports / text_lines_shape (the item theorems restated for literal lines), layer_line_of_item for layer rules. Tie: the literal lines of str(AssertionError) are compared with the model's lines (module and layer rules), and parsed items with model and specification on every stream of C01.",
-        'As C01. Names containing a double quote or a newline are outside the literal-line theorems (witness example). Trusted: Lean kernel, harness/driver.',
+        "Same model and specification as C01, plus a model of message_generator.py down to the literal lines. For every graph and rule: each reported import is an import edge with an end in a subject's sub tree (Pta.C03.reported_imports_are_imports, reported_imports_touch_subject); a 'does not import' line is produced exactly when the dependency query is empty, one per subject, listing exactly the objects it is missing for (missing_lines_are_missing, missing_any_lines_are_missing, missing_lines_complete, one_missing_line_per_subject); on the oracle domain the reported atoms equal the specification's violating set (Pta.C01.report_spec_parentFree; Pta.E2E.scan_rule_report_parentFree from a directory tree); the message text is the sorted de-duplicated rendering of the items (assert_text_eq, line_of_item, parse_render). Tie to /repo on every run: correspondence run (real code vs compiled Lean model vs Lean specification on generated inputs, exhaustive where stated in the evidence): literal message lines compared as lists; interpreter-mode probe.",
+        'As C01. Names containing a double quote or a newline are outside the literal-line theorems. Layer-rule and diagram-rule messages: C05 (layer_report_sound), C07 (aggregated_text_eq). Trusted: Lean kernel, harness/driver.',
         TECH,
         '6/C03',
     ),
+    'C04': (
+        "Lean 4 theorems about the scan model for every directory listing of tree shape, every module_path, every exclusion predicate: walk_modules_exact / walk_files_exact (exactly one module per non-excluded directory / .py file at or below module_path; fuel sufficiency proved), graph_modules_explicit (plus the ancestors up to the root, named from the root directory's name), hierarchy_exact / submodules_exact (sub modules = dotted extensions), scan_wf; sub-scans: subscan_modules, subscan_graph, parent_relative_graph / parent_relative_equiv (imports spelled relative to module_path's parent resolve like the qualified spelling); the entry points inside the model: dirname_spec, path_entry_eq_generateGraph, entry_module_path_str, module_object_entry_eq_path_entry, module_object_plain_module, module_object_modules_exact. Regenerated on every run from pytestarch.py: the data flow of the options through both entry points (Pta.C04.generated_wiring_agree). Tie to /repo on every run: correspondence run (real code vs compiled Lean model vs Lean specification on generated inputs, exhaustive where stated in the evidence): random trees, every directory as module_path, both entry points under complete option sets, path spellings (trailing/doubled separators, Path objects, relative paths), symbolic links, exclusions.",
+        'os.walk / pathlib producing the listing and module objects beyond their __file__ string are parameters of the model. Dotted directory names and x.py next to x/ inside the scanned part are outside treeWFFor. Trusted: Lean kernel, harness/driver, the wiring translator.',
+        TECH,
+        '6/C04',
+    ),
+    'C05': (
+        "Lean 4 theorem Pta.C05.layer_verdict: for every well-formed architecture, every layered architecture in the relaxed domain layerDomain' (modules of DIFFERENT layers pairwise unrelated; inside one layer related modules allowed; layers by name list or by regex, mixed; any number of unmentioned layers of either kind), every LayerRule (12 shapes + 2 'any layer' forms, any number of object layers) the model of LayerRule.assert_applies passes exactly when the documented layer semantics hold; layer_verdict_kept, layer_verdict_chain (through the fluent builder), unmentioned_layers_irrelevant', unmentioned_layers_as_no_layer, layerOf_correct, layer_report_sound, overlapping_layers_never_verdict; from a directory tree: Pta.E2E.scan_layer_verdict. Tie to /repo on every run: correspondence run (real code vs compiled Lean model vs Lean specification on generated inputs, exhaustive where stated in the evidence): partitions into 2-4 layers, regex layers in four spellings, re-used LayerRule objects, interpreter-mode probe.",
+        'Layers listing RELATED modules in different layers: no oracle (the library raises LayerMismatch, C15.perm_layers). The regex engine resolving a regex layer is the uninterpreted parameter mt (hypothesis `resolves`). Trusted: Lean kernel, harness/driver.',
+        TECH,
+        '6/C05',
+    ),
+    'C06': (
+        "Lean 4 round-trip theorem Pta.C06.roundtrip: for EVERY diagram of the documented subset (any interleaving of declaration lines in the 3 forms with optional 'as alias' on the bracketed forms and arrow lines in all 6 arrow forms with bracketed / bare / alias references; identifiers or dotted names; arbitrary text before @startuml and after @enduml) the model of PumlParser.parse yields exactly the declared or referenced components and exactly the drawn relation; presentation_irrelevant, order_irrelevant (line order, alias vs name references), decl_line_modules, arrow_line_dependency, body_of_text, no_tags / parse_error_iff (no tags -> parsing error), conflicting_alias_rejected. Tie to /repo on every run: correspondence run (real code vs compiled Lean model vs Lean specification on generated inputs, exhaustive where stated in the evidence): diagrams rendered from random relations in every form (keyword-like names, CRLF files, prose outside the tags), one parser object over several files.",
+        "Python's re on the two PlantUML regexes is not modelled: the line recognisers are hand transcriptions whose agreement on documented lines rests on the correspondence run. Outside the subset two boundary theorems state what the model does (bracketed_alias_outside_subset, second_end_tag_extends_body). Trusted: Lean kernel, harness/driver.",
+        TECH,
+        '6/C06',
+    ),
+    'C07': (
+        'Lean 4 theorems: conforms_iff_of_graph / fails_iff_not_conforms (for every well-formed architecture and every diagram whose components are existing, pairwise unrelated modules the model of DiagramRule passes exactly when the imports conform to the diagram, both modes; each generated rule is a strict C01 rule), aggregates_all / first_error_propagates (every failing generated rule contributes, a non-assertion error wins), aggregated_text_eq / aggregated_text_items / diagram_text_is_aggregation (the message TEXT is the newline-join, in rule order, of the texts of exactly the failing rules), base_module / base_module_diagram (with_base_module(p) = writing p.name), from the diagram FILE: diagram_file_conforms_iff, diagram_file_never_errs, diagram_file_base_conforms_iff, diagram_file_report; from a directory tree: Pta.E2E.scan_diagram_file_conforms. Tie to /repo on every run: correspondence run (real code vs compiled Lean model vs Lean specification on generated inputs, exhaustive where stated in the evidence): component relations x import graphs x both modes x both naming options, re-used rule objects, interpreter-mode probe.',
+        "Domain diagramDomain (components exist, pairwise unrelated); components missing from the architecture raise a lookup error (Pta.C13.diagram_unknown_component). The parser tie is C06's. Trusted: Lean kernel, harness/driver.",
+        TECH,
+        '6/C07',
+    ),
     'C08': (
-        'Lean 4 theorems for ALL patterns and ALL subject strings: the converted glob pattern lies in the emitted regex class and matching it equals the documented glob meaning (Pta.C08.glob_spec, convert_shape, literal_pattern, unescape_escape); for every tree and every pair of exclusion predicates excl0 <= excl: exclusion_exact_modules / exclusion_exact_files / excluded_contributes_no_module / unexcluded_module_remains (a path matching a pattern, and everything below an excluded directory, contributes no module; every other module is exactly as in the scan without the pattern), exclusion_exact_imports (every import between two remaining modules is exactly as before, under the documented carve-out), carve_out_needed (decide-checked witness), conversion_consults (the three places where the conversion reads the module list). Tie: exhaustive comparison of real re.match(convert(p), s) with the model matcher over all patterns/strings up to the stated length, and filtered vs unfiltered real scans vs the scan model on generated trees.',
-        "Carve-out of exclusion_exact_imports: no excluded module is the sub-module target of a surviving 'from P import n' / needed for root-prefix resolution (otherwise the statement legitimately names P instead; witness theorem). Python's re engine on the emitted pattern class is exercised exhaustively on short strings, not modelled; user regex exclusions are an uninterpreted relation; paths with newlines out of scope. Trusted: Lean kernel, harness/driver.",
+        "Lean 4 theorems: glob_spec (for ALL pattern and subject strings the emitted regex, interpreted by the model's matcher for exactly the emitted class, matches iff the documented glob meaning holds) and glob_meaning (existential meaning: literal text in full, leading * any prefix, trailing * any suffix, every other character literal); exclusion_exact_modules / _files / _imports / exclusion_exact_modules_opts (a scan with more patterns = the scan with fewer minus every sub tree rooted at a newly matching path; every other module and every import between remaining modules unchanged), excluded_contributes_no_module, unexcluded_module_remains, more_patterns_exclude_more; the reference scan exists: no_type_error, no_patterns_scan (exclusions=() means nothing is excluded; repaired defect F-C08a). Tie to /repo on every run: correspondence run (real code vs compiled Lean model vs Lean specification on generated inputs, exhaustive where stated in the evidence): exhaustive pattern x subject table against Python's re (length <= 4 quick / <= 6 thorough), trees x exclusion tuples in glob and regex form against the scan with exclusions=().",
+        "regex_exclusions are the uninterpreted relation mt (anchoring at the start is a property of re.match); that Python's re interprets the emitted pattern as the model's matcher does rests on the exhaustive table. Carve-out: an excluded module that is the sub-module target of `from P import n` whose package survives (the statement then names P). Trusted: Lean kernel, harness/driver.",
         TECH,
         '6/C08',
     ),
     'C09': (
-        "Lean 4 theorems: Pta.C09.quotient (architecture level: the graph built with level_limit has exactly the truncated names as nodes and an import a->b iff some module truncating to a imports one truncating to b and a != b), scan level for the real entry point with module_path below root_path: scan_quotient_nodes, scan_quotient_hier, scanQuotientImports / scan_quotient_imports (the limited scan's import edges are exactly the truncated import edges of the unlimited scan, for every tree and every option set - proved after defect F-C09a was repaired), scan_error_indep, flatten_is_truncation (k levels below module_path), and verdict_preserved / spec_verdict_preserved / verdict_lim_spec (strict rules above the limit keep their verdict); verdict_not_preserved_related and collision_iff document the two boundaries by decide-checked witnesses. Tie: two real scans / two real graph builds vs the model, module and import sets and verdicts, with imports of non-modules.",
-        'Verdict preservation is stated on strict rules (pairwise unrelated identifiers): for related identifiers it is false for any implementation satisfying the quotient law (witness theorem). A truncated import that lands on a parent->child pair is a hierarchy edge (only with a file x.py next to a directory x/; collision_iff). Trusted: Lean kernel, harness/driver.',
+        "Lean 4 theorems: quotient / graph_of_quotient_arch / quotient_arch_wf (for every well-formed architecture and limit the level-limited graph is the graph of the truncated architecture), scan level: scan_quotient_nodes, scan_quotient_hier, scan_quotient_imports (for every tree; imports of names that are not modules included), flatten_is_truncation, limit shift by the depth of module_path; verdict preservation above the limit: verdict_preserved / verdict_lim_spec (strict module rules), layer_verdict_preserved / layer_verdict_lim_spec (layer rules in layerDomain'), diagram_verdict_preserved / diagram_file_verdict_preserved (diagram rules), scan_layer_verdict_preserved, scan_diagram_verdict_preserved, Pta.E2E.scan_rule_verdict_limit; too_deep_name (Pta.C13) for names below the limit. Tie to /repo on every run: correspondence run (real code vs compiled Lean model vs Lean specification on generated inputs, exhaustive where stated in the evidence): two builds of the same project with and without level_limit, module_path at or below root_path, externals included, strict rules above the limit.",
+        'For module rules with related identifiers the second sentence of the property is not a consequence of the first (verdict_not_preserved_related, replayed on the code); depth conditions shown necessary (layer_verdict_not_preserved_deep, diagram_verdict_not_preserved_deep). Trusted: Lean kernel, harness/driver.',
         TECH,
         '6/C09',
     ),
+    'C10': (
+        'Lean 4 theorems about the scan model for every tree, every option record and ANY level limit: internal_invariant / internal_invariant_perm / internal_invariant_errors (two runs that differ only in the external options have the same internal modules, imports and hierarchy, and fail on the same inputs), externals_excluded (no external node or edge), externals_included / externals_included_limit (a retained external import: importee, all its ancestors and the import edge exist), nodes_included_limit, externals_not_retained_limit / _uncut / _iff (a not-retained external is not a node and no edge touches it; exact statement under a level limit, naive transfer refuted); since the repair of F-C10e no side condition on the root path string is left (relative_root_before_repair is the Lean witness of the defect). Tie to /repo on every run: correspondence run (real code vs compiled Lean model vs Lean specification on generated inputs, exhaustive where stated in the evidence): trees with internal and external imports x {excluded, included, glob patterns, regex patterns}, absolute and relative root paths, patterns that textually match internal names.',
+        "Which imported names are 'external' in Python's sense is, in the model, 'not below the internal prefix'. User regexes uninterpreted (mt). Trusted: Lean kernel, harness/driver.",
+        TECH,
+        '6/C10',
+    ),
     'C11': (
-        "Lean 4 theorems for every regex interpretation mt, every graph, every shape: regex_expansion_subject / regex_expansion_object (a regex yields the same outcome - verdict and report - as naming all modules it matches), regex_expansion_anything_verdict and anything_alias_dedup_irrelevant (the 'anything' aliases too, without any hypothesis on the parent/sub-module de-duplication, on hierarchy-closed graphs such as every built graph), regex_no_match, partial_name, batch_subjects, batch_objects. Tie: real regexes evaluated by Python's re, the match table sent to the model as mt; compact vs expanded rule compared on the implementation and with the model.",
-        'Trusted: Lean kernel, harness/driver; Python re is an uninterpreted relation (mt).',
+        "Lean 4 theorems for every graph and every interpretation mt of the regex engine: regex_expansion_subject / _object / _anything_verdict (a regex filter = naming the modules it matches), regex_no_match / regex_no_match_exact (no match -> ImpossibleMatch, either side, never a verdict), partial_name (the deprecated partial-name form is its regex translation; what the translation means is Pta.C08.glob_spec), batch_subjects / batch_objects with their three-valued forms batch_*_err / _raises / _fail (a batch = the conjunction of the single rules, for explicitly given objects, all shapes, related names allowed; several objects for plain should / should_not). Tie to /repo on every run: correspondence run (real code vs compiled Lean model vs Lean specification on generated inputs, exhaustive where stated in the evidence): real regexes (anchored, open-ended, ungrouped alternations, fragments from inside names, look-ahead, inline flags) evaluated by Python's re.match and sent as match tables; partial names against the documented glob meaning; re-used rule objects.",
+        "What a given regex matches is Python's re (parameter mt). Batching of the 'anything' forms is not a conjunction law (see C12 alias_anything_verdict_api). Trusted: Lean kernel, harness/driver.",
         TECH,
         '6/C11',
     ),
     'C12': (
-        "Lean 4 theorems on every graph (related names included): duality, negation (+ counterexample showing why one regex is not 'one subject'), both decompositions, the anything alias (alias_anything, alias_anything_verdict for all name batches, alias_anything_dedup), both monotonicity laws; plus generated_flags_agree, a proof obligation regenerated from behavior_requirement.py and _get_dependency_expectations by a translator on every run. Tie: law instances evaluated on the real code over the C01 stream without strictness filter, and vs the model.",
-        'Trusted: Lean kernel, harness/driver, the 130-line translator (its output is also compared by executing the real class on all 16 rows).',
+        "Lean 4 theorems about the model verdict on EVERY graph value (related identifiers included): duality, negation / negation_eq (single subject and object, plain and except), decomposition / decomposition_except with the three-valued decomposition_eq / _except_eq, alias_anything / alias_anything_verdict_api ('should not import anything' = 'should not import modules except' the subject, on every batch the fluent API can build; alias_mixed_counterexample beyond), monotone_should / monotone_should_not / monotone_err (adding an import edge) and, at the level of FILES, scan_add_statement_nodes / _monotone / _error, scan_more_statements_monotone (adding import statements to files of a scanned tree, any level limit: modules and hierarchy stay, imports only grow, passing should stays passing, failing should_not stays failing, errors stay). Regenerated on every run from behavior_requirement.py and rule_violation_detector.py: Pta.C12.generated_flags_agree. Tie to /repo on every run: correspondence run (real code vs compiled Lean model vs Lean specification on generated inputs, exhaustive where stated in the evidence): law instances on the implementation alone over all small trees and random graphs, file-level monotonicity stream, re-used rule objects.",
+        'Negation for regex filters is false (negation_counterexample_regex). With external libraries INCLUDED an added import statement adds a module, and file-level monotonicity fails for regex subjects (external_modules_not_monotone, replayed on the code): the file-level theorems are for the default options. Trusted: Lean kernel, harness/driver, the flag translator.',
         TECH,
         '6/C12',
     ),
     'C13': (
-        "Lean 4 theorems over ALL call sequences: a Rule history the specification automaton classifies as incomplete/contradictory/error-at-call never yields a verdict (rule_history_raises, rule_history_error_at, rule_history_complete), LayerRule histories (layer_rule_history), unknown names (unknown_name; anything_unknown_name / anything_unknown_name_history / layer_anything_unknown_name for the 'anything' aliases - proved after defect F-C13b was repaired), no-match regexes (no_match), overlapping layers (Pta.C05.overlapping_layers_never_verdict), conflicting aliases and missing tags in diagrams, entry options (decision table). Tie: exhaustive sequences up to length 5 over the builder vocabularies, mutations of complete chains, mutated names, pattern batches with a non-matching pattern, all option combinations on the real code vs model vs automaton.",
-        'No open finding. Trusted: Lean kernel, harness/driver.',
+        'Lean 4 theorems over ALL call sequences: rule_history_raises / rule_history_error_at / rule_history_complete (a Rule history the specification automaton classifies incomplete, contradictory or erroneous never yields a verdict and is rejected at the offending call), layer_rule_history, diagram_history_raises / _complete / _no_tags (DiagramRule as a state machine); names: unknown_name, anything_unknown_name (also for subjects the alias conversion drops), layer_unknown_module, diagram_unknown_component / diagram_lookup_error_iff, too_deep_name (level-limited architectures); patterns: no_match, no_match_object, no_match_wins_over_unknown_name, layer_regex_no_match; requests: options (the option table), module_path_outside_root, options_before_paths, module_objects_outside_root. Regenerated on every run from pytestarch.py and rule.py: Pta.C13.generated_config_agree. Tie to /repo on every run: correspondence run (real code vs compiled Lean model vs Lean specification on generated inputs, exhaustive where stated in the evidence): every call sequence of length <= 5 over the Rule / LayerRule / DiagramRule vocabularies, mutations of complete chains, empty-list specifications, all option-presence combinations, diagrams with absent components next to violated rules, interpreter-mode probe.',
+        'The Python exception classes are mapped to ErrKind by the harness. Trusted: Lean kernel, harness/driver, the guard translator.',
         TECH,
         '6/C13',
     ),
     'C14': (
-        "Lean 4 theorems: the boundary-aware raw-string tests of the (repaired) code equal the component-level prefix relation (raw_test_is_prefix); the documented semantics commutes with every injective renaming of components (desc_ren, verdict_ren, violating_ren, domain_ren); and the CODE MODEL does so for ALL rules - related names, batches, 'anything' with its de-duplication - as an exact equality of the whole outcome: model_outcome_ren / model_report_ren / model_verdict_ren_all / model_atoms_ren (same verdict class, same error kind, same report lines in the same order with every name renamed), via the generic isomorphism invariance model_iso; the same for ALL layer rules (layer_model_iso, layer_verdict_ren, layer_report_ren: same verdict class, error kind incl. LayerMismatch, same report lines and layer tags) and for diagram rules (diagram_model_iso, diagram_verdict_ren, diagram_spec_ren: same class, report items permuted); layerOf_ren, labels_ren / label_ren / nearest_alias_ren, isInternal_ren. Tie: every case evaluated on the real code under a collision-free and an adversarial renaming, outcomes compared up to renaming and with the model.",
-        'Regex-defined layers and user regexes are not renamed (a renaming does not act on patterns). Trusted: Lean kernel, harness/driver.',
+        'Lean 4 theorems for every injective renaming of path components with well-formed images (GoodRen; advRen makes siblings string prefixes of one another): raw_test_is_prefix (every raw-string test of the code equals the component-level test once the boundary is added; raw_prefix_counterexample without it), desc_ren, verdict_ren / violating_ren (specification), graph_ren, model_verdict_ren_all / model_report_ren / model_outcome_ren (model outcome of every module rule), layerOf_ren, layer_verdict_ren, layer_report_ren, diagram_verdict_ren / diagram_spec_ren, labels_ren / label_ren, isInternal_ren, text_ren_items / text_ren (the message text: lines permuted and re-sorted). Tie to /repo on every run: correspondence run (real code vs compiled Lean model vs Lean specification on generated inputs, exhaustive where stated in the evidence): every rule / layer / label / scan case evaluated under a collision-free and an adversarial renaming (prefix siblings, suffix-like names, letter case), parent-relative imports in renamed sub-scans, diagram rules over prefix-sibling components.',
+        "Regex specifications are outside the property's quantifier (mt is not renamed). text_ren needs quote-free names (text_ren_needs_quoteFree). Scan-level invariance is established by the correspondence run and C04's naming theorems. Trusted: Lean kernel, harness/driver.",
         TECH,
         '6/C14',
     ),
     'C15': (
-        'Partial by nature: the logic half is proved in Lean - verdict depends only on node/edge sets (verdict_congr); perm_subjects, perm_objects, perm_modules_imports, perm_patterns, perm_dir_entries, scan_graph_perm (two scans of the same tree with different enumeration orders build equivalent graphs, any options), perm_layers (order of layer definitions, unconditional after defect F-C15a was repaired), perm_layer_rule_filters, applyAll_perm (order of generated diagram rules), diagram_lines_perm / diagram_text_perm (order of diagram lines, unconditional after F-C15b was repaired), reapply for ALL pairs of architectures, convertAliases_idem. The interpreter half (no mutation of the evaluable, hash seeds 0..7, shuffled iterdir, re-used rule objects) is observed on the real code by history/permutation/hash-seed runs and compared with the model.',
-        'The model is pure by construction, so purity of the real evaluable is exercised, not proved. Trusted: Lean kernel, harness/driver.',
+        'The part that is logic is proved, the part that lives in the interpreter is exercised. Lean 4 theorems: report_reapply / reapply (a rule object applied before behaves like a fresh one, text included; convertAliases_idem), report_congr / report_perm_* (verdict and literal message lines invariant under permuting subjects, objects, modules, imports, layers, layer-rule filters), scan_graph_perm / scan_report_perm / perm_dir_entries (directory enumeration order), perm_patterns, perm_layers (no hypothesis since the repair of F-C15a), run_report_perm / run_layer_report_perm (through the builders), applyAll_perm, diagram_lines_perm / diagram_text_perm / diagram_message_lines_perm (diagram line order; diagram_message_order_counterexample: only the multiset of lines is invariant). Tie to /repo on every run: correspondence run (real code vs compiled Lean model vs Lean specification on generated inputs, exhaustive where stated in the evidence): histories of up to 40 evaluations on a shared evaluable with snapshots before/after, re-used rule objects across architectures, permutations of every list-valued argument, shuffled Path.iterdir / os.listdir / os.scandir (also under a level limit), 8 interpreters with PYTHONHASHSEED 0..7.',
+        "Partial by nature: 'leaves the architecture unchanged' and the hash seed are outside a pure model and are observed by the snapshot and 8-seed runs only. Trusted: Lean kernel, harness/driver.",
         TECH,
         '6/C15',
     ),
     'C16': (
-        'Lean 4 theorems over ALL builder call sequences: the LayeredArchitecture builder refines the specification automaton (larch_refines: accept/reject at the offending call, accepted definitions list what was supplied in order), the reachable-state invariant (unique layer names, at most one pending layer, no module in two layers: larch_invariant), empty_module_list_keeps_layer_open / empty_module_list_is_noop / empty_module_list_without_layer (an empty module list supplies no modules: the layer stays open), LayerRule guards (layer_rule_guards). Tie: exhaustive sequences up to length 6 (string and list forms, empty lists, shared characters) on the real builders vs model vs automaton.',
-        "One don't-care of the automaton is left (a regex string textually equal to a module name given elsewhere), compared with the model only. Trusted: Lean kernel, harness/driver.",
+        'Lean 4 theorems over ALL builder call sequences: larch_refines / larch_calls_refine (the LayeredArchitecture builder refines the specification automaton: accept or reject at the offending call, accepted definitions list what was supplied in order; both argument forms of containing_modules), larch_invariant / larch_calls_invariant (unique layer names, at most one pending layer, no module identifier in two layers), string_form_eq_list_form, module_in_one_layer / string_form_one_layer (a module passed as a string or inside a list can be given to one layer only, rejected at that call), empty_module_list_keeps_layer_open, layer_rule_guards (architecture first, exactly one subject layer); charset_counterexample_accepts / _rejects state the repaired defect F-C16 on a model of the old code. Tie to /repo on every run: correspondence run (real code vs compiled Lean model vs Lean specification on generated inputs, exhaustive where stated in the evidence): every builder sequence of length <= 6 (thorough 7), random longer ones over names sharing characters and falsy names, every LayerRule sequence of length <= 4, one rule object used for a second rule.',
+        "One don't-care of the automaton is left (a regex string textually equal to a module name given elsewhere), compared with the model only. Argument forms other than str / list[str] are outside the model. Trusted: Lean kernel, harness/driver.",
         TECH,
         '6/C16',
     ),
     'C17': (
-        'Lean 4 theorems: labels computed by the model of _create_plot_labels_with_alias equal the nearest-aliased-ancestor labelling for all well-formed names and alias maps (labels_spec), every module labelled exactly once (labels_cover), unknown alias rejected naming it (unknown_alias), remaining kwargs passed through (kwargs_passthrough). Tie: the drawing backend is replaced in-process by a recorder; generated alias maps on real evaluables vs the model.',
-        'The backend hand-off is observed at one interception point (networkxgraph.draw_networkx). Trusted: Lean kernel, harness/driver.',
+        'Lean 4 theorems: labels_spec (for all well-formed names and alias maps the labels computed by the model of _create_plot_labels_with_alias are the nearest-aliased-ancestor labelling), labels_cover (every module labelled exactly once), unknown_alias (an alias for a module that does not exist is rejected naming it), kwargs_exact / kwargs_passthrough_ordered (spacing -> pos, aliases -> labels, every other option arrives unchanged and in order), from a directory tree: Pta.E2E.scan_labels, scan_labels_unknown_alias; invariance under renaming: Pta.C14.labels_ren. Tie to /repo on every run: correspondence run (real code vs compiled Lean model vs Lean specification on generated inputs, exhaustive where stated in the evidence): alias maps over subsets of the modules of random trees with prefix siblings, alias strings with dots, backslashes and regex metacharacters, level-limited architectures, omitted ancestors, repeated visualize calls, with_labels, explicit pos.',
+        'The backend hand-off is observed at one interception point (networkxgraph.draw_networkx); option values are opaque tokens in the model. Trusted: Lean kernel, harness/driver.',
         TECH,
         '6/C17',
     ),
